@@ -2,6 +2,7 @@ package props
 
 import (
 	"bytes"
+	"context"
 	"encoding/json"
 	"errors"
 	"fmt"
@@ -351,7 +352,100 @@ func execC15Timeout(c c15Case, r *oracle.Result) (*oracle.Result, string) {
 			time.Sleep(5 * time.Millisecond)
 		}
 	}
+	// (a4') a Set that has reported its timeout has returned: its interval is over. A later,
+	// successful Set or Delete of the key through another handle is final - the abandoned
+	// writer must not take effect after it (no linearisable order has it there).
+	if serr != nil && !errors.Is(serr, context.DeadlineExceeded) {
+		return r, ""
+	}
+	if serr != nil {
+		// on a fresh directory, so that the later operation follows the timed-out Set at once
+		// (above, the abandoned writer has been given time to finish)
+		late, detail := execC15LateOnce(c)
+		if late {
+			// timing decides whether the abandoned writer is still at work when the later
+			// operation completes: a report needs the same outcome in at least 2 of 8 further fresh runs
+			n := 0
+			for i := 0; i < 8; i++ {
+				c2 := c
+				c2.Seed += uint64(100 * (i + 1))
+				if l, _ := execC15LateOnce(c2); l {
+					n++
+				}
+			}
+			r.Label("late-commit-seen")
+			if n >= 2 {
+				r.Fail("C15", "timed-out-set-takes-effect-later", 0, "enc=%v: Set of %d bytes with operation timeout %v returned %v, then %s (and in %d of 8 further runs)", c.Enc, c.NewLen, time.Duration(c.TimeoutNs), serr, detail, n)
+			}
+		}
+	}
 	return r, ""
+}
+
+// c15LateCommit performs a later operation on the key through conn and reports whether the
+// value of the timed-out Set (late) shows up after it.
+func c15LateCommit(c c15Case, dir string, conn driver.Conn, late []byte) (bool, string) {
+	third := world.ExpandValue(700+int(c.Seed%300), c.Seed+2)
+	del := c.Seed%3 == 0
+	var operr error
+	what := "a successful Set of another value"
+	if del {
+		what = "a successful Delete"
+		operr = conn.Delete(c.Key)
+		if errors.Is(operr, driver.ErrNotExist) {
+			operr = nil
+		}
+	} else {
+		operr = conn.Set(c.Key, third)
+	}
+	if operr != nil {
+		return false, ""
+	}
+	deadline := time.Now().Add(3 * time.Second)
+	for time.Now().Before(deadline) {
+		left := false
+		for _, f := range filesUnder(dir) {
+			if strings.Contains(filepath.Base(f), ".tmp-") {
+				left = true
+			}
+		}
+		if !left {
+			break
+		}
+		time.Sleep(5 * time.Millisecond)
+	}
+	time.Sleep(2 * time.Millisecond)
+	got, err := conn.Get(c.Key)
+	if err == nil && bytes.Equal(got, late) {
+		return true, what + " completed, and afterwards Get returns the value of the Set that had timed out"
+	}
+	return false, ""
+}
+
+// execC15LateOnce repeats the timeout case on a fresh directory and reports a late commit.
+func execC15LateOnce(c c15Case) (bool, string) {
+	dir := c15TempDir(false)
+	defer os.RemoveAll(dir)
+	plain, err := c15Open(dir, c.Enc)
+	if err != nil {
+		return false, ""
+	}
+	if err := plain.Set(c.Key, world.ExpandValue(c.PrevLen, c.Seed)); err != nil {
+		return false, ""
+	}
+	opts := []fscache.Option{fscache.WithBaseDir(dir), fscache.WithTimeout(time.Duration(c.TimeoutNs))}
+	if c.Enc {
+		opts = append(opts, fscache.WithEncryption(c14EncKey))
+	}
+	hasty, err := fscache.Open("app", opts...)
+	if err != nil {
+		return false, ""
+	}
+	next := world.ExpandValue(c.NewLen, c.Seed+1)
+	if serr := hasty.Set(c.Key, next); !errors.Is(serr, context.DeadlineExceeded) {
+		return false, ""
+	}
+	return c15LateCommit(c, dir, plain, next)
 }
 
 type rtFunc func(*http.Request) (*http.Response, error)
